@@ -119,3 +119,17 @@ def compare_results(ref: pd.DataFrame, got: pd.DataFrame, key_ref, key_got, ulps
         elif check_dtype and a.dtype.kind != b.dtype.kind:
             diffs.append((c, "dtype", f"{a.dtype} vs {b.dtype}"))
     return diffs
+
+
+# ------------------------------------------------------------------ known crash (C08 finding)
+def known_crash(date_iso, exc):
+    """Signature of the recorded C08 finding if `exc` is exactly that crash, else None.
+
+    2017-01-01..2017-06-30: `_ges_rente_zahlbetrag_ohne_deckel_m` (active from 2017-01-01) reads
+    ges_rente['abzugsrate_hinzuverdienst'] whose first entry is dated 2017-07-01.  Checks other than
+    C08 count such simulations as skipped (they cannot observe their property on a run that does not
+    finish) and report the number; C08 itself reports the finding.
+    """
+    if isinstance(exc, KeyError) and "abzugsrate_hinzuverdienst" in str(exc) and "2017-01-01" <= str(date_iso) <= "2017-06-30":
+        return "missing-parameter:ges_rente.abzugsrate_hinzuverdienst:2017-01-01..2017-06-30"
+    return None
